@@ -57,9 +57,10 @@ const (
 // scen is one closed harness program.
 type scen struct {
 	closerMgr bool   // RunnerCloserManager (else plain RunnerManager)
-	runners   string // per runner: 'n' return nil at once, 'e' return an error at once; wait for ctx then return: 'N' nil, 'E' an error, 'C' context.Canceled, 'W' a wrapped Canceled
+	runners   string // per runner, at once: 'n' return nil, 'e' an error, 'c' context.Canceled, 'w' a wrapped Canceled; wait for ctx then return: 'N' nil, 'E' an error, 'C' context.Canceled, 'W' a wrapped Canceled
 	closers   string // per closer registered before Run: 'n' nil, 'e' an error, 'p' parks until a harness thread releases it (then nil), 'f' returns only after the fatal function ran
-	grace     byte   // '-' unset (nil), 'g' generous (10s), 'x' 1s, exceeded by an 'f' closer
+	grace     byte   // '-' unset (nil), 'g' generous (10s), 's' short (1s), 'x' 1s, exceeded by an 'f' closer
+	timeline  bool   // timeline mode: model time moves only when nothing else can run
 	close     byte   // '-' none, 'b' Close before Run, '1' one concurrent Close, '2' two concurrent, 'a' Close after Run returned
 	addCloser byte   // '-' none; a thread calls AddCloser during the run with a closer returning 'n' nil / 'e' an error
 	addFrom   byte   // who starts that thread: 'm' the main thread before it calls Run, 'r' runner 0 when it starts
@@ -96,6 +97,9 @@ func (s scen) name() string {
 	if s.pb {
 		n += " (preemption-bounded)"
 	}
+	if s.timeline {
+		n += " (timeline)"
+	}
 	return n
 }
 
@@ -130,11 +134,13 @@ type closerRec struct {
 	start       int
 	startStep   int
 	ret         int
+	retAt       time.Duration
 	returned    bool
 }
 
 type callRec struct {
 	name     string
+	retAt    time.Duration
 	start    int
 	step     int
 	ret      int
@@ -218,6 +224,11 @@ func mkExec(s scen) *mc.Exec {
 				case 'n':
 				case 'e':
 					r.err = r.e
+				case 'c': // at once, while the manager's context is still live
+					r.err = context.Canceled
+				case 'w':
+					r.err = fmt.Errorf("runner %d gave up: %w", r.idx, context.Canceled)
+					names[r.err] = fmt.Sprintf("wrappedCanceledAtOnce%d", r.idx)
 				default:
 					mc.Twin(ctx.Done()).Recv()
 					r.sawDone = tick()
@@ -259,7 +270,7 @@ func mkExec(s scen) *mc.Exec {
 				case 'f':
 					fatalCh.Recv()
 				}
-				c.ret, c.returned = tick(), true
+				c.ret, c.returned, c.retAt = tick(), true, mc.ModelNow()
 				return c.e
 			}
 			switch {
@@ -280,7 +291,7 @@ func mkExec(s scen) *mc.Exec {
 			case 'g':
 				grace = graceGenerous
 				gp = &grace
-			case 'x':
+			case 'x', 's':
 				grace = graceShort
 				gp = &grace
 			}
@@ -313,14 +324,14 @@ func mkExec(s scen) *mc.Exec {
 			c := &callRec{name: name, start: tick(), step: mc.Step()}
 			runs = append(runs, c)
 			c.err = m.Run(parent)
-			c.ret, c.retStep, c.returned = tick(), mc.Step(), true
+			c.ret, c.retStep, c.returned, c.retAt = tick(), mc.Step(), true, mc.ModelNow()
 			markStarted()
 		}
 		doClose := func(name string) {
 			c := &callRec{name: name, start: tick(), step: mc.Step()}
 			closes = append(closes, c)
 			c.err = cm.Close()
-			c.ret, c.retStep, c.returned = tick(), mc.Step(), true
+			c.ret, c.retStep, c.returned, c.retAt = tick(), mc.Step(), true, mc.ModelNow()
 		}
 		doLateAdd := func(name string) {
 			c := &callRec{name: name, start: tick(), step: mc.Step()}
@@ -453,6 +464,19 @@ func mkExec(s scen) *mc.Exec {
 			// closers start no earlier than the return of the last runner
 			if fatalAt < lastRunnerAt+grace {
 				return fmt.Errorf("[key=fatal-before-grace-elapsed] fatal-shutdown action fired at model time %v, before closers-start (>= %v, the return of the last runner) + grace period %v", fatalAt, lastRunnerAt, grace)
+			}
+			if s.timeline {
+				// model time moved only while nothing could run: the action is
+				// legitimate only if a closer really was still busy
+				busy := false
+				for _, c := range allClosers {
+					if c.invocations == 1 && (!c.returned || c.ret > fatalSeq) {
+						busy = true
+					}
+				}
+				if !busy {
+					return fmt.Errorf("[key=fatal-fired-though-closers-finished-in-time] fatal-shutdown action fired at model time %v although every closer had finished before the grace period (%v) elapsed: the shutdown sat idle until the deadline\n%d user closer(s)", fatalAt, grace, len(allClosers))
+				}
 			}
 			if ran != nil && ran.returned && ran.ret < fatalSeq {
 				return fmt.Errorf("[key=fatal-after-closers-collected] fatal-shutdown action fired at step %d, after Run had collected every closer and returned (step %d)", fatalStep, ran.retStep)
@@ -589,6 +613,24 @@ func mkExec(s scen) *mc.Exec {
 		}
 		if ok, g := same(ran.err); !ok {
 			return fmt.Errorf("[key=joined-errors] %s returned the join of %s, the non-nil non-Canceled results are %s", ran.name, enames(g), enames(want))
+		}
+		// ---- timeline mode: Run and Close return once the closers have finished,
+		// not when the grace period ends ----
+		if s.timeline {
+			last := lastRunnerAt
+			for _, c := range allClosers {
+				if c.invocations == 1 && c.retAt > last {
+					last = c.retAt
+				}
+			}
+			if fatalCount == 1 && fatalAt > last {
+				last = fatalAt
+			}
+			for _, c := range append([]*callRec{ran}, closes...) {
+				if c.returned && c.retAt > last {
+					return fmt.Errorf("[key=return-delayed-beyond-closers] %s returned at model time %v although the last runner/closer had finished at %v and nothing else was running", c.name, c.retAt, last)
+				}
+			}
 		}
 		// ---- every Close call: returns after all closers, same error ----
 		for _, c := range closes {
@@ -734,7 +776,7 @@ func mkTypesExec() *mc.Exec {
 }
 
 func hasTrigger(s scen) bool {
-	return len(s.runners) == 0 || strings.ContainsAny(s.runners, "ne") || s.parent ||
+	return len(s.runners) == 0 || strings.ContainsAny(s.runners, "necw") || s.parent ||
 		(s.closerMgr && (s.close == '1' || s.close == '2' || s.close == 'b'))
 }
 
@@ -776,11 +818,11 @@ func scenarios() []hx.Scenario {
 		sc := s
 		out = append(out, hx.Scenario{
 			Name: n, Class: class, ThoroughOnly: thoroughOnly,
-			Opts: mc.Options{Delay: delay, MinBound: minBound, Bound: bound, AutoClock: true, Horizon: time.Minute, MaxSteps: 5000},
+			Opts: mc.Options{Delay: delay, MinBound: minBound, Bound: bound, AutoClock: true, ClockLast: s.timeline, Horizon: time.Minute, MaxSteps: 5000},
 			Mk:   func() *mc.Exec { return mkExec(sc) },
 		})
 	}
-	kinds := "neNECW"
+	kinds := "necwNECW"
 	tuples := func(n int, sorted bool) []string {
 		var res []string
 		var rec func(cur string)
@@ -832,9 +874,9 @@ func scenarios() []hx.Scenario {
 				add(sc, rm, false, 2, 2, r == 2 && !sortedT)
 				if r >= 1 && r <= 2 && sortedT {
 					sc.lateAdd = true
-					add(sc, rm, false, 2, 2, !in(t, "n", "N", "eN"))
+					add(sc, rm, false, 2, 2, !in(t, "n", "N", "eN", "cN"))
 					sc.lateAdd, sc.run2 = false, true
-					add(sc, rm, false, 2, 2, !in(t, "e", "E", "nE"))
+					add(sc, rm, false, 2, 2, !in(t, "e", "E", "nE", "wE"))
 				}
 			}
 		}
@@ -843,7 +885,7 @@ func scenarios() []hx.Scenario {
 	// ---- RunnerCloserManager: many goroutines, delay bounding ----
 	closeModes := []byte{'-', 'b', '1', '2', 'a'}
 	// G1 life cycle: runners x closers x grace unset/generous x Close mode x parent
-	for _, t := range []string{"", "n", "e", "N", "E", "C", "W", "nN", "eE", "NE", "EW", "ee", "CN", "eNE", "nEW"} {
+	for _, t := range []string{"", "n", "e", "c", "w", "N", "E", "C", "W", "nN", "eE", "cN", "wE", "cw", "NE", "EW", "ee", "CN", "eNE", "nEW", "cEW"} {
 		for _, cl := range []string{"", "n", "e", "ne", "ee", "nee"} {
 			for _, g := range []byte{'-', 'g'} {
 				for _, cm := range closeModes {
@@ -852,7 +894,7 @@ func scenarios() []hx.Scenario {
 						if !hasTrigger(sc) {
 							continue
 						}
-						quick := in(t, "", "e", "N", "eE") && in(cl, "", "e") && !(par && g == 'g')
+						quick := in(t, "", "e", "c", "N", "eE", "wE") && in(cl, "", "e") && !(par && g == 'g')
 						add(sc, rcm, true, 3, 4, !quick)
 					}
 				}
@@ -905,6 +947,26 @@ func scenarios() []hx.Scenario {
 				sc := scen{closerMgr: true, runners: t, grace: '-', close: cm, parent: par, addCloser: 'e', addFrom: 'm', pb: true}
 				if hasTrigger(sc) && !(cm == '1' && par) {
 					add(sc, rcm, false, 1, 2, t == "N" || par)
+				}
+			}
+		}
+	}
+	// G5 timeline mode (model time moves only at quiescence): with a grace
+	// period configured, Run/Close return when the closers have finished and
+	// the fatal action fires only if a closer is really still busy at the
+	// deadline — in particular with zero or one user closer
+	for _, t := range []string{"", "n", "e", "w", "N", "eE"} {
+		for _, cl := range []string{"", "n", "e", "ne", "p", "f", "ef", "nf"} {
+			for _, g := range []byte{'g', 's', 'x'} {
+				for _, cm := range []byte{'-', '1', '2', 'a'} {
+					for _, par := range []bool{false, true} {
+						sc := scen{closerMgr: true, runners: t, closers: cl, grace: g, close: cm, parent: par, timeline: true}
+						if !hasTrigger(sc) || (par && t != "N") {
+							continue
+						}
+						quick := in(t, "", "n", "N") && in(cl, "", "e", "f") && cm != '2'
+						add(sc, rcm, true, 3, 4, !quick)
+					}
 				}
 			}
 		}
